@@ -31,10 +31,30 @@ def log(*a):
     print(*a, file=sys.stderr, flush=True)
 
 
+def modfile_args():
+    """VERIF_REPO=<dir> builds against another copy of the repository (used for sensitivity runs in scratch worktrees);
+    by default the replace directive in go.mod points at /repo."""
+    repo = os.environ.get("VERIF_REPO")
+    if not repo:
+        return []
+    os.makedirs(BUILD, exist_ok=True)
+    tag = hashlib.sha256(repo.encode()).hexdigest()[:10]
+    mod = os.path.join(BUILD, "go.%s.mod" % tag)
+    with open(os.path.join(ROOT, "go.mod")) as f:
+        text = f.read().replace("=> /repo", "=> " + os.path.abspath(repo))
+    with open(mod, "w") as f:
+        f.write(text)
+    shutil.copy(os.path.join(ROOT, "go.sum"), mod[:-4] + ".sum")
+    return ["-modfile", mod]
+
+
 def build(race=False):
     os.makedirs(BUILD, exist_ok=True)
-    out = os.path.join(BUILD, "props.race.test" if race else "props.test")
-    cmd = ["go", "test", "-c", "-tags", "verif", "-o", out]
+    suffix = ""
+    if os.environ.get("VERIF_REPO"):
+        suffix = "." + hashlib.sha256(os.environ["VERIF_REPO"].encode()).hexdigest()[:10]
+    out = os.path.join(BUILD, ("props.race%s.test" if race else "props%s.test") % suffix)
+    cmd = ["go", "test", "-c", "-tags", "verif", "-o", out] + modfile_args()
     if race:
         cmd.append("-race")
     cmd.append("./props")
@@ -236,7 +256,7 @@ def main():
             fdir = os.path.join(ROOT, "props", "testdata", "fuzz", s["test"])
             before = set(os.listdir(fdir)) if os.path.isdir(fdir) else set()
             env = dict(base_env, VERIF_SHARD="fuzz")
-            cmd = ["go", "test", "-tags", "verif", "-run", "^$", "-fuzz", "^%s$" % s["test"], "-fuzztime", "%ds" % ft, "./props"]
+            cmd = ["go", "test", "-tags", "verif"] + modfile_args() + ["-run", "^$", "-fuzz", "^%s$" % s["test"], "-fuzztime", "%ds" % ft, "./props"]
             try:
                 p = subprocess.run(cmd, cwd=ROOT, env=env, stdout=subprocess.PIPE, stderr=subprocess.STDOUT, text=True, timeout=ft + 600)
                 out, rc = p.stdout, p.returncode
@@ -355,8 +375,9 @@ def merge(prop, tier, seed, stats_dir, wall, nviol, n_replays, fuzz_info, known)
         "wall_s": round(wall, 2),
         "violations": nviol,
     }
-    os.makedirs(os.path.join(ROOT, "evidence"), exist_ok=True)
-    with open(os.path.join(ROOT, "evidence", prop + ".json"), "w") as f:
+    evdir = os.environ.get("VERIF_EVIDENCE_DIR", os.path.join(ROOT, "evidence"))
+    os.makedirs(evdir, exist_ok=True)
+    with open(os.path.join(evdir, prop + ".json"), "w") as f:
         json.dump(ev, f, indent=1, sort_keys=True, default=str)
     return ev
 
